@@ -78,6 +78,15 @@ CHECKS = {
    design="4 C01",
    note=COMMON_NOTE + "Partial: node-level theorem + byte-level predicate evaluated on implementation output; cbor2 dumps/loads modelled as enc/dec on the plain subset.",
    technique="Lean 4 proof (loop invariant over digest updates, for all hash functions) + byte-exact model/implementation correspondence + executable byte-level spec"),
+ "C05": dict(
+   text="Lean theorems, each for all file systems and all hash functions: C05_file_digest ({file:p} -> hash under the named algorithm of exactly fs p), C05_file_direct_digest, "
+        "C05_file_missing (error, no default), C05_size_file (= length of fs p), C05_size_envelope (= length of the child created on its own), C05_payload_path, "
+        "C05_dep_inline (embedded = create child), C05_dep_digest_inline + C05_dep_digest_same_bytes (the parent records the hash, under the parent's algorithm, of the very "
+        "manifest bytes the child's own refreshed wrapper digests), C05_hex_roundtrip(_upper) (hex text is a faithful carrier). Tie: generated descriptions with all four "
+        "reference forms; real create vs model byte-for-byte; every reference re-computed from the files with hashlib/len on the envelope the real tool created.",
+   design="4 C05",
+   note=COMMON_NOTE + "Known finding F9 (hex-looking file names). Dependency by path relies on C03's round trip (F4 region excluded).",
+   technique="Lean 4 proof (per reference form, parametric in fs and hash) + byte-exact correspondence + recomputation from files"),
 }
 
 NA_REASON = "check not yet built in this revision (work in progress; DESIGN.md section 4 describes the planned model and theorems)"
